@@ -3,3 +3,4 @@ import SfModel.Basic
 import SfModel.Float
 import SfModel.G711
 import SfModel.Pcm
+import SfModel.Handle
